@@ -908,17 +908,28 @@ func c13(c *core.Ctx, r *core.Report) {
 		"(R2) the value converted and returned is math.Max(0, ·): outputs are non-negative; (R3) the zero-jitter early return, when present, returns the rate parameter itself. NOT decided: the fixed bound on the running difference and the per-value ±jitter% bound (magnitude reasoning over the random factor)."
 	r.NotDecided = []string{"bound on |Σ jittered − Σ rate|", "each value within jitter % of rate + carried remainder"}
 	wj := c.MustFn("internal/trigger/api", "WithJitter")
+	// by role: the jitter function is the RateFunction value WithJitter returns that is not its own parameter
+	// (a function literal today; a bound method after a refactor)
 	var cl *ssa.Function
-	for _, a := range wj.AnonFuncs {
-		cl = a
+	var clVal ssa.Value
+	for _, ret := range an.Returns(wj) {
+		v := an.Strip(ret.Results[0])
+		switch x := v.(type) {
+		case *ssa.MakeClosure:
+			if f, ok := x.Fn.(*ssa.Function); ok {
+				cl, clVal = an.Unwrap(f), x
+			}
+		case *ssa.Function:
+			cl, clVal = x, x
+		}
 	}
 	rule(r, "C13.R1", "carry conservation on `balance` (analysis H)", func() {
 		if cl == nil {
-			panic(core.AnchorError{What: "WithJitter closure"})
+			panic(core.AnchorError{What: "WithJitter's jitter function (a function value returned by WithJitter)"})
 		}
 		cells := cellsOf(cl)
 		if len(cells) != 1 {
-			r.Violation("WithJitter#cells", c.Pos(cl.Pos()), "the jitter closure writes %d captured variables (expected exactly one carry cell)", len(cells))
+			r.Violation("WithJitter#cells", c.Pos(cl.Pos()), "the jitter function writes %d persistent variables (expected exactly one carry cell)", len(cells))
 			return
 		}
 		k := cells[0]
@@ -939,35 +950,52 @@ func c13(c *core.Ctx, r *core.Report) {
 				if k.loadOf(noConv(add.X)) {
 					term = add.Y
 				}
-				d := an.D().Of(term)
-				r.Check(strings.HasPrefix(d, "dyn:^$rate("), "WithJitter#due-term", an.Pos(c, st), "due = rate(now) + balance", "the amount due adds "+d+" to the balance, not this tick's un-jittered rate")
+				isRate := false
+				if call, ok := an.Strip(noConv(term)).(*ssa.Call); ok {
+					if n := an.DynCallType(call); n != nil && an.IsNamed(n, apiPkg, "RateFunction") {
+						isRate = true
+					}
+				}
+				r.Check(isRate, "WithJitter#due-term", an.Pos(c, st), "due = rate(now) + balance", "the amount due adds "+an.D().Of(term)+" to the balance, not this tick's un-jittered rate")
 			}
 		}
-		// initial balance is 0
-		if b := an.FreeVarBinding(k.fv); b != nil {
-			if al, ok := b.(*ssa.Alloc); ok {
-				for _, st := range an.StoresTo(al) {
-					r.Check(an.D().Of(st.Val) == "0", "WithJitter#initial-balance", an.Pos(c, st), "balance starts at 0", "balance starts at "+an.D().Of(st.Val))
-				}
-			}
+		// initial balance is 0 (or the zero value)
+		for _, init := range k.initialStores(c, cl, clVal) {
+			r.Check(an.D().Of(init.Val) == "0", "WithJitter#initial-balance", an.Pos(c, init), "balance starts at 0", "balance starts at "+an.D().Of(init.Val))
 		}
 	})
 	rule(r, "C13.R2", "outputs are non-negative: every return is int(math.Max(0, ·)) (or a guarded / constant non-negative value)", func() {
 		if cl == nil {
-			panic(core.AnchorError{What: "WithJitter closure"})
+			panic(core.AnchorError{What: "WithJitter's jitter function"})
 		}
 		nonNegReturns(c, r, cl, nil)
 	})
 	rule(r, "C13.R3", "zero jitter is the identity: a return guarded by multiple == 0 returns the rate parameter itself (absence of the early return is not an alarm)", func() {
 		n := 0
+		var rateParam *ssa.Parameter
+		for _, p := range wj.Params {
+			if an.IsNamed(p.Type(), apiPkg, "RateFunction") {
+				rateParam = p
+			}
+		}
 		for _, ret := range an.Returns(wj) {
 			for _, g := range an.GuardsOf(ret.Block()) {
-				gd := an.D().Of(g.Cond)
-				if gd == "($multiple == 0)" && g.Polarity {
-					n++
-					d := an.D().Of(ret.Results[0])
-					r.Check(d == "$rate", "WithJitter#zero-identity", an.Pos(c, ret), "multiple == 0 returns the rate itself", "with zero jitter WithJitter returns "+d+" instead of the rate function it was given")
+				bo, ok := g.Cond.(*ssa.BinOp)
+				if !ok || bo.Op != token.EQL || !g.Polarity {
+					continue
 				}
+				x, y := an.Strip(g.T(bo.X)), an.Strip(g.T(bo.Y))
+				if _, isK := x.(*ssa.Const); isK {
+					x, y = y, x
+				}
+				p, isP := x.(*ssa.Parameter)
+				k, isK := y.(*ssa.Const)
+				if !isP || !isK || p.Parent() != wj || k.Value == nil || an.D().Of(k) != "0" {
+					continue
+				}
+				n++
+				d := an.D().Of(ret.Results[0])
+				r.Check(rateParam != nil && an.Strip(ret.Results[0]) == ssa.Value(rateParam), "WithJitter#zero-identity", an.Pos(c, ret), "zero jitter returns the rate itself", "with zero jitter WithJitter returns "+d+" instead of the rate function it was given")
 			}
 		}
 		if n == 0 {
